@@ -19,11 +19,23 @@ import (
 const cutSpec = 1024 // docs/spec.md: "pointer files must be less than 1024 bytes" (Spec constant, never Gen)
 
 type filterSession struct {
-	dir   string
-	cmd   *exec.Cmd
-	in    io.WriteCloser
-	out   *bufio.Reader
-	known map[string][]byte // objects the harness knows to be in the store (oid -> content)
+	dir       string
+	cmd       *exec.Cmd
+	in        io.WriteCloser
+	out       *bufio.Reader
+	known     map[string][]byte // objects the harness knows to be in the store (oid -> content)
+	tmpBefore int               // files under .git/lfs/tmp before the current operation
+}
+
+func (s *filterSession) tmpFiles() int {
+	n := 0
+	filepath.Walk(filepath.Join(s.dir, ".git", "lfs", "tmp"), func(p string, fi os.FileInfo, err error) error {
+		if err == nil && !fi.IsDir() {
+			n++
+		}
+		return nil
+	})
+	return n
 }
 
 func gitInit(dir string) error {
@@ -68,14 +80,14 @@ func (s *filterSession) close() {
 }
 
 type filterCase struct {
-	Op     string `json:"op"`
-	Name   string `json:"name"`   // file name argument ("" = none)
-	AtPath string `json:"atpath"` // what sits at that path: "none", or hex content length marker
-	PathLen int   `json:"pathlen"`
-	Hint   int64  `json:"hint"`
-	Chunks []int  `json:"chunks"`
-	EofLast bool  `json:"eoflast"`
-	Data   []byte `json:"-"`
+	Op      string `json:"op"`
+	Name    string `json:"name"`   // file name argument ("" = none)
+	AtPath  string `json:"atpath"` // what sits at that path: "none", or hex content length marker
+	PathLen int    `json:"pathlen"`
+	Hint    int64  `json:"hint"`
+	Chunks  []int  `json:"chunks"`
+	EofLast bool   `json:"eoflast"`
+	Data    []byte `json:"-"`
 	DataHex string `json:"data"`
 }
 
@@ -314,6 +326,9 @@ func (s *filterSession) checkClean(fc *filterCase, o filterObs, before map[strin
 		if len(after) != len(before) {
 			return "cleaning a pointer added an object to local storage (pointer to a pointer)"
 		}
+		if n := s.tmpFiles(); n > s.tmpBefore {
+			return fmt.Sprintf("cleaning a pointer left a file behind in .git/lfs/tmp (%d -> %d): nothing is to be added for a pointer", s.tmpBefore, n)
+		}
 		return ""
 	}
 	oid := sha(b)
@@ -412,6 +427,7 @@ func filterCampaign(c *Ctx, prop string) {
 		var knownList [][]byte
 		doCase := func(fc *filterCase, kind string) filterObs {
 			before := s.storeFiles()
+			s.tmpBefore = s.tmpFiles()
 			o := s.run(fc)
 			c.R.Count("op." + fc.Op)
 			c.R.Count("payload." + kind)
@@ -798,7 +814,6 @@ func init() {
 	}
 }
 
-
 // c08BigThroughPipes: content far larger than the pipes between Git and a long-running filter hold — raw
 // files committed at tracked paths, look-alikes that begin like a pointer — through the real
 // `git-lfs filter-process`, spoken to the way Git does (the whole request is written before a byte of
@@ -820,7 +835,6 @@ func c08BigThroughPipes(c *Ctx, r *Rng) {
 		c.R.Count("big-through-pipes")
 	}
 }
-
 
 // c01StaleObject: at the path where the object of the content belongs, local storage already holds a file
 // that is NOT that object (another length: what a power loss shortly after an earlier clean leaves, nothing
